@@ -13,6 +13,45 @@ from nemoguardrails.colang.v2_x.runtime.flows import FlowHeadStatus, FlowStatus
 
 PROP = "C09"
 
+# Reference naming of the event a waiting statement listens for, written from the UMIM / Colang naming convention
+# (action requests carry the verb in front: StartX, StopX, ChangeX; action reports behind: XStarted, XFinished,
+# X<Param>Updated; flow events have fixed names) - deliberately independent of the interpreter's own helper.
+_FLOW_EVENT = {"Start": "StartFlow", "Stop": "StopFlow", "Pause": "PauseFlow", "Resume": "ResumeFlow",
+               "Started": "FlowStarted", "Finished": "FlowFinished", "Failed": "FlowFailed"}
+
+
+def _action_event_name(action_name, member):
+    if member in ("Start", "Stop", "Change"):
+        return member + action_name
+    return action_name + member
+
+
+def ref_event_name(state, fs, el):
+    from nemoguardrails.colang.v2_x.lang.colang_ast import SpecType
+    from nemoguardrails.colang.v2_x.runtime.flows import Action, Event, FlowState
+
+    spec = el.spec
+    members = spec.members
+    if spec.var_name is not None:
+        obj = fs.context[spec.var_name]
+        for m in (members or [])[:-1]:
+            obj = obj[m.name] if isinstance(obj, dict) else getattr(obj, m.name)
+        if isinstance(obj, Event):
+            return obj.name
+        last = members[-1]["name"]
+        if isinstance(obj, Action):
+            return _action_event_name(obj.name, last)
+        if isinstance(obj, FlowState):
+            return _FLOW_EVENT[last]
+        raise ValueError(f"unsupported reference {type(obj).__name__}")
+    if members is not None:
+        if spec.spec_type == SpecType.FLOW:
+            return _FLOW_EVENT[members[0]["name"]]
+        if spec.spec_type == SpecType.ACTION:
+            return _action_event_name(spec.name, members[0]["name"])
+        raise ValueError(f"unsupported spec type {spec.spec_type}")
+    return spec.name
+
 
 def problems(state, allow_missing_parent=False):
     """Return a list of (signature, text) describing every violated predicate."""
@@ -56,7 +95,7 @@ def problems(state, allow_missing_parent=False):
                 if sm.is_match_op_element(el):
                     stats["waiting_heads"] += 1
                     try:
-                        name = sm.get_event_name_from_element(state, fs, el)
+                        name = ref_event_name(state, fs, el)
                     except Exception as e:  # unresolved reference: the head can never be dispatched
                         out.append(("waiting-head-unresolvable", f"flow {fs.flow_id} match at {h.position}: {e!r}"))
                         continue
@@ -116,6 +155,23 @@ def problems(state, allow_missing_parent=False):
             dup = len(a) != len(set(a))
             kind = "index-missing-head" if missing else ("index-duplicate" if dup and not stale else "index-stale-entry")
             out.append((kind, f"event_matching_heads[{name}]: missing={len(missing)} stale={len(stale)} dup={dup}"))
+    # the lookup performed when an event arrives returns exactly the scanned heads, most important loop first
+    _rel = {"FlowFinished": ("FlowStarted", "FlowFailed"), "FlowFailed": ("FlowStarted", "FlowFinished")}
+    for name in sorted(set(idx) | set(expected_index)):
+        want = list(expected_index.get(name, []))
+        for other in _rel.get(name, ()):
+            want += expected_index.get(other, [])
+        try:
+            got = sm._get_all_head_candidates(state, v2x.Event(name=name, arguments={}))
+        except Exception as e:
+            out.append(("lookup-raised", f"head lookup for {name} raised {e!r}"))
+            continue
+        if sorted(got) != sorted(want):
+            out.append(("lookup-differs-from-scan", f"lookup for {name}: {len(got)} heads, scan finds {len(want)}"))
+            continue
+        keys = [(-state.flow_configs[state.flow_states[f].flow_id].loop_priority, state.flow_states[f].hierarchy_position) for f, _ in got if f in state.flow_states]
+        if keys != sorted(keys):
+            out.append(("lookup-order", f"lookup for {name} is not ordered by loop priority and hierarchy position"))
     if dict(state.event_matching_heads_reverse_map) != expected_rev:
         a, b = state.event_matching_heads_reverse_map, expected_rev
         if set(a) != set(b):
